@@ -642,7 +642,7 @@ pub fn run(args: &Args) -> ! {
     rep.exhaustive = exhaustive;
     rep.bounds = json!({"phases": phases_done, "requests": FORMS.iter().map(|f| f.0).collect::<Vec<_>>(), "wall_cap_s": args.wall_cap_s, "wall_cap_hit": dl.was_hit()});
     rep.assumptions = vec![
-        "a position is 'inside' when its line exists ('\\n'-separated lines) and its character ≤ the line's byte length (the most generous of the LSP encodings) — encoding questions are C23's".into(),
+        "a position is 'inside' when its line exists (lines end at \\n, \\r\\n or a lone \\r) and its character ≤ the line's byte length (the most generous of the LSP encodings) — encoding questions are C23's".into(),
         "requests that produce no usable result (error, no response, panic) are C24/C25's subject and counted undecided here".into(),
         "one ServerContext per worker thread serves up to 256 documents; a violating case is re-executed on a fresh ServerContext".into(),
         "positions in documents the server does not hold are counted undecided".into(),
